@@ -1359,7 +1359,7 @@ PROPS = {
             'rule': 'cases = valid requests of all methods, every documented constraint violated singly, malformed / mistyped / mutated bodies, sent as one session to the real server process; non-trivial = request that is not a plain valid one; distinct by body'},
     'C09': {'level_text': 'digests of the request, of every state handed on, of every report and of the pre-bias state taken at the hook point and again after the decision; earlier results re-digested after later calls; reports compared field by field with the state the next stage received (Biases.tla); histories: same request again after other (also rejected) requests, error-path sandwiches; JSON-decoded and exact-capacity inputs', 'level_note': 'library path (MakeDecision) with registries of main.go; identity of Go objects observed through digests, not modelled in TLA+', 'families': ['c09', 'pipeline'], 'nontrivial': nt_pipeline,
             'rule': 'non-trivial = library-path decision in which at least one bias fired (reports and handed-on states exist to be compared); distinct by request'},
-    'C08': {'proofs': ['Decision_proofs'], 'level_text': 'echo, skip-is-identity, p=1 always / p=0 never on every pipeline line; draw independence and monotonicity as satisfiability of one hidden draw per (seed, position) across groups of runs that differ in other entries / own probabilities / inserted disabled entries (incl. unknown names); firing frequency over 600 (4000) seeds within 7 sigma; FireRule, BiasEcho, SkipIsIdentity are invariants of MC_Decision over all draws; TLAPS proves FireRule (hence P1Always / P0Never for draws in 0..3), the echo bookkeeping and SkipIsIdentity for bias lists of any length', 'level_note': 'frequency clause is statistical (false alarm < 1e-11)', 'families': ['c08', 'pipeline'], 'nontrivial': lambda o: len(o['case']['req'].get('biases', [])) >= 1 and o.get('status') == 200,
+    'C08': {'proofs': ['Decision_proofs'], 'level_text': 'echo, skip-is-identity, p=1 always / p=0 never on every pipeline line; draw independence and monotonicity as satisfiability of one hidden draw per (seed, position) across groups of runs that differ in other entries / own probabilities / inserted disabled entries (incl. unknown names); firing frequency over 600 (4000) seeds within 7 sigma; FireRule, BiasEcho, SkipIsIdentity are invariants of MC_Decision over all draws; TLAPS proves FireRule (hence P1Always / P0Never for draws in 0..3), Echo (every processed position is reported under its own name, null when skipped) and SkipIsIdentity for bias lists of any length', 'level_note': 'frequency clause is statistical (false alarm < 1e-11)', 'families': ['c08', 'pipeline'], 'nontrivial': lambda o: len(o['case']['req'].get('biases', [])) >= 1 and o.get('status') == 200,
             'rule': 'non-trivial = accepted request with at least one requested bias; distinct by request (seed included)'},
     'C19': {'level_text': 'reference point within the admissible set (coefficient-weighted best/worst, cross-multiplied for cost), scaling = 1/range, mapped differences through linear gain/loss exactly (either branch within rounding of 0 after real-valued biases), inline: new = bound(v + range*coef), applied differences = new - old, untouched not-considered unless asked, zero functions = identity; new criterion: mid + half * importance-weighted mean (exact where small, interval otherwise), report = next state', 'level_note': 'expFromZero: sign / zero-multiplier clauses only', 'families': ['pipeline'], 'nontrivial': lambda o: any(e.get('fired') and 'perReferencePointsDifferences' in str(e.get('report')) for e in o.get('events', [])),
             'rule': 'non-trivial = request in which an anchoring bias fired; distinct by request'},
@@ -1371,7 +1371,7 @@ PROPS = {
             'rule': 'non-trivial = request in which a preference-reversal bias fired; distinct by request'},
     'C17': {'level_text': "interval contract |v'-v| <= |f v| pushed through the monotone bounding (raise to 0, then clip to the scaled range of the current data), f=0 identity, zero stays zero, report lists = state handed on, criteria/parameters unchanged, both directions among >= 30 moved values", 'level_note': 'u and the sign are seeded real numbers: only interval/relational clauses; exp ratio taken from the report', 'families': ['pipeline'], 'nontrivial': lambda o: any(e.get('fired') and 'effectiveFatigueRatio' in str(e.get('report')) for e in o.get('events', [])),
             'rule': 'non-trivial = request in which a fatigue bias fired; distinct by request'},
-    'C07': {'proofs': ['Decision_proofs'], 'level_text': "Decision.tla (abstract pipeline: criteria / value cover / parameter cover / split / touched values) model-checked for all bias lists up to length 2-3 with Coherent, SplitStable, Persistence; every emitted list x 7 methods plus seeded random pipelines (length <= 4, all options) and the repository's examples run through the library with hook H1; TLC validates after every bias: values and parameters cover exactly the current criteria (probe Evaluate/RankCriteriaAscending on a copy), split unchanged, criteria delta = reported delta, untouched values persist, status 200; TLAPS (spec/proofs/Decision_proofs.tla, 119 obligations) proves Coherent, SplitStable, Persistence for EVERY bias list, criteria set and draw sequence, not only the bounded instances", 'level_note': 'coherence of private parameter types is observed operationally (probe) and through reflective dumps; a bias removing every criterion is outside the domain', 'families': ['pipeline'], 'nontrivial': nt_pipeline,
+    'C07': {'proofs': ['Decision_proofs'], 'level_text': "Decision.tla (abstract pipeline: criteria / value cover / parameter cover / split / touched values) model-checked for all bias lists up to length 2-3 with Coherent, SplitStable, Persistence; every emitted list x 7 methods plus seeded random pipelines (length <= 4, all options) and the repository's examples run through the library with hook H1; TLC validates after every bias: values and parameters cover exactly the current criteria (probe Evaluate/RankCriteriaAscending on a copy), split unchanged, criteria delta = reported delta, untouched values persist, status 200; TLAPS (spec/proofs/Decision_proofs.tla, 158 obligations) proves Coherent, SplitStable, Persistence for EVERY bias list, criteria set and draw sequence, not only the bounded instances", 'level_note': 'coherence of private parameter types is observed operationally (probe) and through reflective dumps; a bias removing every criterion is outside the domain', 'families': ['pipeline'], 'nontrivial': nt_pipeline,
             'rule': 'non-trivial = request in which at least one bias fired; distinct by request'},
     'C06': {'level_text': 'dominance, identical-alternatives, listing-order and weight-scaling relations evaluated by TLC on real ELECTRE III runs (each instance with a permuted twin and twins with all k x2 and x1/4); the same lemmas (CredOfDominator, DominanceLemma, IdenticalLemma, ScaleLemma) are invariants of MC_ElectreE on the definition; twins with every k x 2^-30 .. 2^10 and near-twin values (2^-44 apart) in four listing orders; a screened family runs 100 000 (thorough: 1 000 000) instances with dominated neighbours (shadow alternatives one or two steps worse, differences equal to thresholds) through the real code, a Go-side pre-check selects the suspicious ones and TLC judges those plus an even sample', 'level_note': 'relations are comparison-only (float-safe); a change that alters indices without breaking these relations is reported by C05, not here; the Go-side pre-check of the screened family only selects cases, every verdict is TLC\'s', 'families': ['electre', 'electre_dom'], 'nontrivial': nt_electre2,
             'rule': 'non-trivial = accepted ELECTRE III request whose two preorders are not both a single class; distinct by request'},
